@@ -675,7 +675,7 @@ fn q_oracle(ck: &mut Ck, spec: &str) {
     };
     for (i, o) in ops.iter().enumerate() {
         let f: Vec<&str> = o.split(':').collect();
-        let k = if f.len() > 1 && !matches!(f[0], "M" | "I" | "J" | "tr" | "tC") { uh(f[1]) } else { String::new() };
+        let k = if f.len() > 1 && !matches!(f[0], "M" | "I" | "J" | "tr" | "tC" | "tk" | "tkg" | "tkd") { uh(f[1]) } else { String::new() };
         let lk = k.to_ascii_lowercase();
         let vk = valid_key(&k);
         let want: String = match f[0] {
@@ -806,7 +806,22 @@ fn q_oracle(ck: &mut Ck, spec: &str) {
                     }
                 }
             },
-            "l" => format!("l:{}:{}", m.len(), if m.is_empty() { "t" } else { "f" }),
+            "l" => format!("l:{}:{}:{}:{}:true:{}:{}", m.len(), if m.is_empty() { "t" } else { "f" }, m.len(), m.len(), m.len(), m.len()),
+            "tk" | "tkg" | "tkd" => {
+                let keys = ["repository_url", "download_url", "vcs_url", "file_name", "platform", "classifier", "type"];
+                let key = keys[f[1].parse::<usize>().unwrap()].to_string();
+                match f[0] {
+                    "tk" => {
+                        m.insert(key, uh(f[2]));
+                        "u".into()
+                    },
+                    "tkg" => ovs(m.get(&key)),
+                    _ => {
+                        m.remove(&key);
+                        "u".into()
+                    },
+                }
+            },
             "tr" => {
                 m.insert("repository_url".into(), uh(f[1]));
                 "u".into()
